@@ -11,7 +11,7 @@ for S in $SEEDS; do
   P=$(python3 -c "import json; print(json.load(open('seeded/$S/meta.json')).get('property') or '$S'.split('-')[0])")
   git -C /repo worktree remove --force $WT 2>/dev/null
   git -C /repo worktree add --detach $WT HEAD -q || { echo "$S: cannot create worktree"; rc=1; continue; }
-  if ! git -C $WT apply seeded/$S/patch.diff 2>/dev/null; then
+  if ! git -C $WT apply "$PWD/seeded/$S/patch.diff" 2>/dev/null; then
     echo "$S ($P): patch does not apply to the current tree (the code it changed was since repaired)"; continue
   fi
   STONE_REPO=$WT ./check $P > /tmp/verif_seedreplay_out.txt 2>&1; r=$?
